@@ -7,6 +7,7 @@ import (
 // C07 — layout chains nest innermost-first, apply the default only when due, and end.
 
 //verif:harness VerifC07_Graph quick.maxpaths=60000 thorough.maxpaths=400000 timeout=3000 steps=60000000 depth=400
+//verif:harness VerifC07_NoLayout quick.maxpaths=20000 thorough.maxpaths=100000 timeout=1800
 
 // layout files of the universe; every layout prints a marker, the previous
 // result (content), a page front-matter key (pk) and a Fill key (fk).
@@ -160,4 +161,47 @@ func VerifC07_Graph() {
 			zzAssert(strings.Contains(out, m+":PK:FK"), "C07.graph.page-data-visible-in-layout")
 		}
 	}
+}
+
+// VerifC07_NoLayout: every way of spelling "this file names no layout" - no
+// key, an empty key, a null key, a nil value given to Fill - in the page and
+// in a layout of the chain behaves like the absent key: the default base
+// layout is applied to such a page when it exists, and the chain ends at such
+// a layout.
+func VerifC07_NoLayout() {
+	spell := func(k int) string {
+		return []string{"", "layout:\n", "layout: ~\n", "layout: null\n", "layout: \"\"\n"}[k]
+	}
+	pageForm := zzChoice("page", 6) // 5 = names layout "a"
+	layoutForm := zzChoice("a", 5)
+	base := zzBool("base")
+	fillNil := zzBool("fillnil")
+	files := map[string]string{}
+	pfm := "pk: PK\n"
+	if pageForm == 5 {
+		pfm += "layout: a\n"
+	} else {
+		pfm += spell(pageForm)
+	}
+	files["p.vuego"] = "---\n" + pfm + "---\n<p>PAGE</p>"
+	files["layouts/a.vuego"] = "---\nak: AK\n" + spell(layoutForm) + "---\n<div class=\"a\"><span v-html=\"content\"></span></div>"
+	if base {
+		files["layouts/base.vuego"] = "<div class=\"base\"><span v-html=\"content\"></span></div>"
+	}
+	data := map[string]any{"fk": "FK"}
+	if fillNil && pageForm != 5 {
+		data["layout"] = nil
+	}
+	out, err := zzRenderFile(newZZFS(files), "p.vuego", data)
+	zzNote("page", files["p.vuego"])
+	zzNote("out", out)
+	if err != nil {
+		zzNote("err", err.Error())
+	}
+	zzAssert(err == nil, "C07.nolayout.spurious-error")
+	zzAssert(strings.Count(out, "PAGE") == 1, "C07.nolayout.page-rendered-once")
+	wantA := pageForm == 5
+	wantBase := pageForm != 5 && base
+	zzAssert(strings.Contains(out, `class="a"`) == wantA, "C07.nolayout.named-layout")
+	zzAssert(strings.Contains(out, `class="base"`) == wantBase, "C07.nolayout.base-iff-page-names-none")
 }
